@@ -134,4 +134,29 @@ def run(ck, rng):
                           "got": impl[i][-700:], "why": bad, "expected": model[i][-700:]})
         elif not massive and impl[i] != model[i]:
             broken = broken or (cases[i][:1500], impl[i][-400:], model[i][-400:])
+    # several dry runs IN FLIGHT AT ONCE (caller goroutines, different trees): every report is what it is alone
+    dh = []
+    for j in range(24 if ck.tier == "quick" else 300):
+        its = []
+        for r in range(rng.randint(1, 3)):
+            its += [(1, b"r%d_%d" % (j, r))] + [(2, rng.choice([b"f%03d.go", b"d%03d"]) % c) for c in range(rng.choice([20, 120, 300]))]
+        dh.append("%s,d,1,%s,-,-,-,-,2e676f,%s" % (rng.choice(["o", "od"]), rng.choice("01"), hx(spell(its, plain_spelling(its)))))
+    alone, _ = run_impl(exe, ["hist " + h for h in dh])
+    groups = [list(range(g, min(g + 6, len(dh)))) for g in range(0, len(dh), 6)]
+    for massive_ in (False, True):
+        if massive_:
+            alone, _ = run_impl(exe, ["mhist " + h for h in dh])
+        together, _ = run_impl(exe, [("mchist " if massive_ else "chist ") + "#".join(dh[i] for i in grp) for grp in groups] * 2)
+        for gi, res in enumerate(together):
+            grp = groups[gi % len(groups)]
+            parts = res.split("#")
+            ck.case(("m" if massive_ else "") + "chist dry group %d rep %d" % (gi % len(groups), gi // len(groups)), True)
+            ck.count("concurrent_dry_runs")
+            for k, i in enumerate(grp):
+                same = k < len(parts) and (parts[k] == alone[i] if not massive_ else sorted(parts[k]) == sorted(alone[i]))
+                if not same:
+                    ck.violation({"property": "C09", "kind": "dry_run", "class": "concurrent_dry_runs", "case": "chist " + "#".join(dh[x] for x in grp)[:3000],
+                                  "got": (parts[k] if k < len(parts) else res)[-300:], "expected": alone[i][-300:],
+                                  "why": "a dry run running at the same time as other dry runs reports something else than when it runs alone"})
+                    break
     return broken
